@@ -292,15 +292,26 @@ func dischargeAll(u *Universe, obls []*Obligation, dir string, timeoutS int, con
 			keep[o.File] = true
 		}
 	}
+	remove := map[string]bool{} // query files (without ".smt2") whose obligation came out as expected
 	for _, o := range obls {
-		if o.File == "" || keep[o.File] || !asExpected(o) {
+		if o.File != "" && !keep[o.File] && asExpected(o) {
+			remove[strings.TrimSuffix(o.File, ".smt2")] = true
+		}
+	}
+	entries, err := os.ReadDir(dir)
+	if err != nil {
+		return
+	}
+	for _, e := range entries {
+		name := filepath.Join(dir, e.Name())
+		if !strings.HasSuffix(name, ".smt2") {
 			continue
 		}
-		os.Remove(o.File)
-		if vs, err := filepath.Glob(strings.TrimSuffix(o.File, ".smt2") + ".*.smt2"); err == nil {
-			for _, v := range vs {
-				os.Remove(v)
-			}
+		base := strings.TrimSuffix(name, ".smt2")
+		if remove[base] {
+			os.Remove(name)
+		} else if i := strings.LastIndex(base, "."); i > 0 && remove[base[:i]] {
+			os.Remove(name) // a weakened encoding <query>.<tag>.smt2
 		}
 	}
 }
